@@ -1,0 +1,6 @@
+//go:build !verif
+
+package vgirpc
+
+// verifAt is a no-op unless the package is built with the "verif" tag.
+func verifAt(string, ...any) {}
